@@ -58,7 +58,8 @@ Inductive baction :=
 | BHadd (k v : bytes) | BHset (k v : bytes)
 | BStatus (code : Z)
 | BWrite (data : bytes)
-| BFlush.
+| BFlush
+| BReadFault (e : ecls).   (* the handler reads the request at this point and the request side reports an error *)
 
 (** the response-side context fixed by validate *)
 Definition response_ctx (t : tconf) (o : opv) (ro : oracles) (eo : eoracles) (end_len : rend -> Z) : wctx :=
@@ -87,6 +88,7 @@ Fixpoint run_script (cx : wctx) (s : list baction) (r : rw) (wr : list wres) : r
                     | _ => run_script cx rest r' (wr ++ [res])
                     end
       | BFlush => run_script cx rest r wr
+      | BReadFault e => run_script cx rest (set_core r (report_error cx e (r_core r))) wr
       end
   end.
 
